@@ -58,7 +58,7 @@ func (p *contentProvider) scoreChunk(ms []*candidateMatch, language string, opts
 		// If this match represents a new line, then score the previous line and update 'start'.
 		if i != 0 && lineNumber != currentLine {
 			score, si := p.scoreLine(ms[start:i], language, currentLine, opts)
-			symbolInfo = append(symbolInfo, si...)
+			symbolInfo = setSymbolInfo(symbolInfo, len(ms), start, si)
 			if score.score > bestScore.score {
 				bestScore = score
 				bestLine = currentLine
@@ -70,7 +70,7 @@ func (p *contentProvider) scoreChunk(ms []*candidateMatch, language string, opts
 
 	// Make sure to score the last line
 	line, si := p.scoreLine(ms[start:], language, currentLine, opts)
-	symbolInfo = append(symbolInfo, si...)
+	symbolInfo = setSymbolInfo(symbolInfo, len(ms), start, si)
 	if line.score > bestScore.score {
 		bestScore = line
 		bestLine = currentLine
@@ -84,6 +84,22 @@ func (p *contentProvider) scoreChunk(ms []*candidateMatch, language string, opts
 		cs.debugScore = fmt.Sprintf("%s, (line: %d)", bestScore.debugScore, bestLine)
 	}
 	return cs, symbolInfo
+}
+
+// setSymbolInfo stores the symbol information of one line's matches (si is
+// nil or has one entry per match of that line) at the positions of those
+// matches in the chunk. The result is nil or has one entry per match of the
+// chunk, as ChunkMatch.SymbolInfo documents: lines without symbol information
+// must not shift the entries of later lines.
+func setSymbolInfo(symbolInfo []*zoekt.Symbol, n int, start int, si []*zoekt.Symbol) []*zoekt.Symbol {
+	if si == nil {
+		return symbolInfo
+	}
+	if symbolInfo == nil {
+		symbolInfo = make([]*zoekt.Symbol, n)
+	}
+	copy(symbolInfo[start:], si)
+	return symbolInfo
 }
 
 type lineScore struct {
@@ -224,13 +240,16 @@ func (p *contentProvider) scoreLineBM25(ms []*candidateMatch, lineNumber int) (f
 
 	// Check if any index comes from a symbol match tree, and if so hydrate in symbol information
 	var symbolInfo []*zoekt.Symbol
-	for _, m := range ms {
+	for i, m := range ms {
 		if m.symbol {
 			if sec, si, ok := p.findSymbol(m); ok && si != nil {
 				// findSymbols does not hydrate in Sym. So we need to store it.
 				sym := sectionSlice(p.data(false), sec)
 				si.Sym = string(sym)
-				symbolInfo = append(symbolInfo, si)
+				if symbolInfo == nil {
+					symbolInfo = make([]*zoekt.Symbol, len(ms))
+				}
+				symbolInfo[i] = si
 			}
 		}
 	}
